@@ -136,10 +136,17 @@ impl C17 {
             FileSpec { rel: "merged/m.json".into(), bytes: doc::render(&J::Map(merged), DocFmt::JsonPretty).into_bytes(), mtime_ns: 0 },
         ];
         let mut params = Vec::new();
+        let same_base = r.chance(1, 3);
+        if same_base {
+            rep.count("gen.same_base_name_layout", 1);
+        }
         for p in 1..=nparams {
             let fmt = *r.pick(&[DocFmt::JsonPretty, DocFmt::YamlBlock, DocFmt::JsonCompact]);
             // an empty parameter file would be rejected as "empty" — keep at least `{}`
-            let rel = format!("params/p{}.{}", p, fmt.ext());
+            // layouts: distinct names in one directory, or the same base name in
+            // different sub-directories (common/params.json, prod/params.json)
+            let rel = if same_base { format!("params/s{}/params.json", p) } else { format!("params/p{}.{}", p, fmt.ext()) };
+            let fmt = if same_base { DocFmt::JsonPretty } else { fmt };
             files.push(FileSpec { rel: rel.clone(), bytes: doc::render(&parts[p], fmt).into_bytes(), mtime_ns: 0 });
             params.push(rel);
         }
